@@ -352,7 +352,7 @@ def _instantiate(ginfo, call, caller_names, target):
     return new
 
 
-def _instantiate_generator(ginfo, for_stmt, caller_names):
+def _instantiate_generator(ginfo, for_stmt, caller_names, index_name=None):
     """Statements replacing `for T in gen(args): BODY` for a generator helper of the form
     [setup...] for X in ITER: [stmts without yield, may `continue`] yield E   -- the yield being the last statement of the loop body
     and nothing following the loop.  None if the helper is not of that form."""
@@ -386,6 +386,10 @@ def _instantiate_generator(ginfo, for_stmt, caller_names):
 
     if tail_block(loop.body) is None or not any(x is yields[0] for x in ast.walk(loop)):
         return None
+    if index_name is not None:
+        # `for i, T in enumerate(gen(args))`: i counts the helper's iterations only if every iteration yields exactly once
+        if not isinstance(loop, ast.For) or tail_block(loop.body) is not loop.body or _contains(loop.body, (ast.Continue, ast.Break)):
+            return None
     if _contains(for_stmt.body, (ast.Break, ast.Return)) and False:
         return None
     # a `break` in the caller's body leaves the helper's loop: fine, nothing follows it in the helper
@@ -445,6 +449,9 @@ def _instantiate_generator(ginfo, for_stmt, caller_names):
         if hasattr(n, "ctx"):
             n.ctx = ast.Store()
     tb[-1:] = [bind] + list(for_stmt.body)
+    if index_name is not None:
+        nloop.target = ast.Tuple(elts=[ast.Name(id=index_name, ctx=ast.Store()), nloop.target], ctx=ast.Store())
+        nloop.iter = ast.Call(func=ast.Name(id="enumerate", ctx=ast.Load()), args=[nloop.iter], keywords=[])
     out = pre + new_body
     _relocate([x for x in pre], for_stmt)
     for st in out:
@@ -602,6 +609,12 @@ def _inline_in_function(prog, fi, is_new, stats):
         i = 0
         while i < len(stmts):
             s = stmts[i]
+            s_real, idx_name = s, None
+            if isinstance(s, ast.For) and not s.orelse and isinstance(s.iter, ast.Call) and isinstance(s.iter.func, ast.Name) and s.iter.func.id == "enumerate" and len(s.iter.args) == 1 and not s.iter.keywords and isinstance(s.iter.args[0], ast.Call) and isinstance(s.target, ast.Tuple) and len(s.target.elts) == 2 and isinstance(s.target.elts[0], ast.Name):
+                # for i, T in enumerate(gen(args)): read as `for T in gen(args)` with the index handed to the helper's loop
+                idx_name = s.target.elts[0].id
+                s = ast.For(target=s.target.elts[1], iter=s.iter.args[0], body=s.body, orelse=[], type_comment=None)
+                ast.copy_location(s, s_real)
             if isinstance(s, ast.For) and not s.orelse and isinstance(s.iter, ast.Call):
                 try:
                     tg, how = prog.resolve_call(s.iter, fi)
@@ -611,7 +624,7 @@ def _inline_in_function(prog, fi, is_new, stats):
                 if g is not None and g.qual.startswith(fi.qual + ".") and (_contains(g.node.body, (ast.Nonlocal, ast.Global)) or g.qual.count(".") != fi.qual.count(".") + 1):
                     g = None  # a closure that rebinds the caller's names is left alone
                 if g is not None and g is not fi and is_new(g) and g.module.kind in ("py", "pyx"):
-                    repl = _instantiate_generator(g, s, caller_names)
+                    repl = _instantiate_generator(g, s, caller_names, index_name=idx_name)
                     if repl is not None:
                         stmts[i : i + 1] = repl
                         stats.setdefault(fi.qual, []).append(g.qual)
@@ -619,6 +632,7 @@ def _inline_in_function(prog, fi, is_new, stats):
                         done += 1
                         i += len(repl)
                         continue
+            s = s_real
             for f in ("body", "orelse", "finalbody"):
                 sub = getattr(s, f, None)
                 if isinstance(sub, list) and sub and isinstance(sub[0], ast.stmt):
